@@ -362,7 +362,9 @@ func init() {
 			check := func(fi *FuncInfo, ret *ast.ReturnStmt, collides *types.Var, key string) {
 				cand := ret.Results[0]
 				kw, col := false, false
-				for _, g := range fi.Guards(ret) {
+				gs, undo := fi.expandGuards(fi.Guards(ret))
+				defer undo()
+				for _, g := range gs {
 					if !g.Neg {
 						continue
 					}
@@ -371,8 +373,10 @@ func init() {
 							kw = true
 						}
 					}
-					if cl, ok := ast.Unparen(g.Expr).(*ast.CallExpr); ok && fi.varOf(cl.Fun) == collides && len(cl.Args) == 1 && fi.sameExpr(cl.Args[0], cand) {
-						col = true
+					if cl, ok := ast.Unparen(g.Expr).(*ast.CallExpr); ok && len(cl.Args) == 1 && fi.sameExpr(cl.Args[0], cand) {
+						if fi.varOf(cl.Fun) == collides || fi.varOf(fi.deref(cl.Fun)) == collides {
+							col = true
+						}
 					}
 				}
 				r.Check(kw && col, key, ret.Pos(), "candidate %s is returned only when !IsKeyword [%v] and !collides [%v]", exprShort(cand), kw, col)
